@@ -108,6 +108,27 @@ def rand_history(rng, cfg, n):
     return h
 
 
+def storm_script(rng, n):
+    """first use of per-remedy state in the plugin: n storms of 2-8 simultaneous FIRST requests, each on a remedy name
+    nobody has used yet or - policies re-applied - on a used name with a strategy it never had"""
+    ops, seen = [], {}
+    for i in range(n):
+        if seen and rng.random() < 0.2:
+            name = rng.choice(sorted(seen))
+        else:
+            name = "s%d" % i
+        free = [(q, w) for q in (1, 2, 3) for w in (2, 4) if (q, w) not in seen.setdefault(name, set())]
+        if not free:
+            name = "s%d" % i
+            free = [(q, w) for q in (1, 2, 3) for w in (2, 4)]
+            seen[name] = set()
+        q, w = rng.choice([f for f in free if f[0] == 1] * 2 + free)
+        seen[name].add((q, w))
+        ops.append({"id": name, "n": rng.randint(2, 8), "quota": q, "w": w})
+    hs = [[{"ev": "reset", "now": 0}, {"ev": "storm", "ops": ops[k:k + 250]}] for k in range(0, n, 250)]
+    return {"config": {"quota": 1, "w": 2, "qsize": 0, "mode": "plugin"}, "histories": hs}
+
+
 def execute(ctx, binary, scripts, tag):
     """one executor process per script (configuration), several at a time: the background goroutines an instance of
     the code under test leaves behind stay within their process"""
@@ -162,7 +183,9 @@ def witness_of(rej):
             cnt[now // cfg["w"]] = cnt.get(now // cfg["w"], 0) + 1
     w = {"class": "outcome-not-permitted-by-spec", "mode": cfg.get("mode"), "reconfigured": any(x["ev"] == "reconf" for x in rej.get("script", [])),
          "config": {k: cfg[k] for k in ("quota", "w", "qsize")}, "event": e, "now": now, "invariant": rej.get("invariant"),
-         "concurrent": any(x["ev"] in ("conc", "race") for x in rej.get("script", []))}
+         "concurrent": any(x["ev"] in ("conc", "race", "storm") for x in rej.get("script", []))}
+    if e["ev"] == "batch":
+        w["class"] = "first-use-race" if e["rel"] > e["quota"] else "batch-not-permitted"
     if e["ev"] == "end" and e["id"] in arr:
         t0, b = arr[e["id"]]
         waited = now > t0
@@ -202,7 +225,7 @@ def epochs_of(trace):
             ids = {e["id"] for e in h if e["ev"] == "begin" and e.get("ep", 0) in eps}
             if len(strat) > 1 and not ids:
                 continue
-            ph = [e for e in h if e["ev"] in ("reset", "adv", "quiet") or (e["ev"] in ("begin", "end", "pop") and e["id"] in ids)]
+            ph = [e for e in h if e["ev"] in ("reset", "adv", "quiet", "batch") or (e["ev"] in ("begin", "end", "pop") and e["id"] in ids)]
             groups.setdefault(json.dumps(c, sort_keys=True), []).append((hi, ph))
     return [(json.loads(k), v) for k, v in groups.items()]
 
@@ -227,7 +250,7 @@ def judge(ctx, binary, scripts, traces, tag, seen):
         cfg, hs = split_histories(ev)
         ctx.cov["traces_validated_against_impl"] += acc
         for h in hs:
-            ctx.cov["evaluations"] += sum(1 for e in h if e["ev"] == "begin")
+            ctx.cov["evaluations"] += sum(1 if e["ev"] == "begin" else e["n"] if e["ev"] == "batch" else 0 for e in h)
             key = json.dumps([cfg, h], sort_keys=True)
             if key not in seen:
                 seen.add(key)
@@ -267,7 +290,7 @@ def judge(ctx, binary, scripts, traces, tag, seen):
             if not rej:
                 return None
         return rej[0]
-    sel = [(i, t) for i, t in enumerate(traces) if not any(e["ev"] == "reconf" for e in t)]   # DpqI models one queue
+    sel = [(i, t) for i, t in enumerate(traces) if not any(e["ev"] in ("reconf", "batch") for e in t)]   # DpqI models one queue
     if tag != "cx":                      # every other recording in the quick tier, every fourth of the random ones in the thorough tier
         sel = sel[::2] if not ctx.thorough or tag == "gen" else sel[::4]
     drifts = parallel(drift, sel, n=4)
@@ -299,7 +322,8 @@ def run(ctx):
     sd = ctx.spec_dir(SPEC)
     ctx.cov["rule"] = ("histories = counterexample schedules of the pinned hand-off model forced through the yield point + TLC -simulate walks "
                        "of DpqI restricted to driver-forceable schedules (arrivals, held goroutines, ticks) + seeded random scripts (priorities, "
-                       "TTLs around window ends, held goroutines, arrivals started together, arrivals racing the roll-over goroutine), through "
+                       "TTLs around window ends, held goroutines, arrivals started together, arrivals racing the roll-over goroutine; storms "
+                       "of 2-8 simultaneous first requests on thousands of fresh remedies / re-applied strategies as compact batch events), through "
                        "Enqueue and through StrategyBasedQueuePlugin.OnRequest; a history is non-trivial when a request waited across a clock "
                        "advance and was let through and some request was refused; distinct by (config, events)")
     ctx.cov["checker_cmd"] = "tlc -config MC_dpq_a.cfg MC_C10.tla (and MC_dpq_b); tlc -config DpqTrace.cfg DpqTrace.tla; tlc -config DpqITrace.cfg DpqITrace.tla"
@@ -326,6 +350,10 @@ def run(ctx):
                                       extra=["-coverage", "1"] if T else [])
         return ctx.tlc(sd, "MC_C10", it[0] + ".cfg", workers=1, timeout=300, label="non-vacuity: " + it[1])
     rs = parallel(mc, good + bad, n=4)
+    # first use of per-remedy state in the plugin: one lookup-create-store critical section refines P, the racy variant must not
+    ctx.tlc_exhaustive(sd, "DpqCreateI", "MC_create.cfg", workers=1, timeout=300, label="I=>P first use of a remedy's queue, 3 callers")
+    if ctx.tlc(sd, "DpqCreateI", "MC_create_kf.cfg", workers=1, timeout=300, label="non-vacuity: racy first use must violate P").violated is None:
+        raise Broken("the first-use model cannot tell the create race from the property (vacuous check)")
     if T:
         witnesses(ctx, sd, "MC_C10", "MC_dpq_wit.cfg", ["WitRelease", "WitTtl", "WitFull", "WitBuffered", "WitTtlVsSignal", "WitSkipGone"])
         coverage(ctx, [r for it, r in zip(good + bad, rs) if it in good], ["e1", "e2", "e3", "e4", "r0", "r1", "r2", "r3", "c0"])
@@ -420,8 +448,12 @@ def run(ctx):
         cfg = {"quota": ctx.rng.choice([1, 1, 2, 3]), "w": ctx.rng.choice([2, 4]), "qsize": ctx.rng.choice([1, 2, 3]),
                "mode": "plugin" if c % 2 else "dpq"}
         scripts.append({"config": cfg, "histories": [rand_history(ctx.rng, cfg, hl) for _ in range(nh)]})
+    # storms of simultaneous first requests on fresh remedies / re-applied strategies, through the real plugin
+    for _ in range(2 if not T else 8):
+        scripts.append(storm_script(ctx.rng, 2500))
     traces = execute(ctx, binary, scripts, "rand")
     ctx.sample({"kind": "recorded-trace", "events": traces[0][:16]})
+    ctx.sample({"kind": "first-use storms", "events": traces[-1][:6]}, limit=4)
     judge(ctx, binary, scripts, traces, "rand", seen)
     if UNREPRODUCED and not ctx.violations:
         raise Broken("%d rejection(s) by the specification could not be reproduced: %s" % (len(UNREPRODUCED), json.dumps(UNREPRODUCED[0])[:600]))
